@@ -922,3 +922,34 @@ _AP_FOR = "        for message in messages.into_iter() {\n"
 for _p in ('C02', 'C01', 'C16'):
     M(_p, 'refactor4-approve-index-loop-' + _p.lower(), GW, _AP_FOR, "        for i in 0..messages.len() {\n            let message = messages.get_unchecked(i);\n", equiv=True)
 M('C02', 'approve-index-loop-skips-last', GW, _AP_FOR, "        for i in 0..messages.len() - 1 {\n            let message = messages.get_unchecked(i);\n", 'C02')
+M('C03', 'refactor4-validate-signers-while-let-next', AUTH, _VS_FOR, "    let mut remaining = weighted_signers.signers.iter();\n    while let Some(signer) = remaining.next() {\n        ensure!(", equiv=True)
+M('C03', 'refactor4-validate-signers-loop-let-else', AUTH, _VS_FOR, "    let mut remaining = weighted_signers.signers.iter();\n    loop {\n        let Some(signer) = remaining.next() else { break };\n        ensure!(", equiv=True)
+
+# ---------------- a private helper replaced by a local closure that captures and mutates local state (spliced at its call sites) ----------------
+_ACC = """            total_weight = total_weight.checked_add(weight).unwrap();
+
+            if total_weight >= proof.threshold {
+                return true;
+            }"""
+_ACC_CALL = """            if add_weight(weight) {
+                return true;
+            }"""
+_ACC_DECL = ("    let mut total_weight = 0u128;\n\n    for ProofSigner {", """    let mut total_weight = 0u128;
+    let threshold = proof.threshold;
+    let mut add_weight = |weight: u128| {
+        total_weight = total_weight.checked_add(weight).unwrap();
+        total_weight >= threshold
+    };
+
+    for ProofSigner {""")
+
+
+def _two(src_pairs):
+    return src_pairs
+
+
+for _p in ('C01', 'C08'):
+    MUTANTS.append(dict(prop=_p, id='refactor4-sigloop-local-closure-' + _p.lower(), file=AUTH, find=_ACC, replace=_ACC_CALL, expect=None, equiv=True, base=None,
+                        also=[_ACC_DECL]))
+MUTANTS.append(dict(prop='C01', id='sigloop-local-closure-no-accumulation', file=AUTH, find=_ACC, replace=_ACC_CALL, expect='C01', equiv=False, base=None,
+                    also=[(_ACC_DECL[0], _ACC_DECL[1].replace("total_weight = total_weight.checked_add(weight).unwrap();\n        total_weight >= threshold", "let _ = &mut total_weight;\n        weight >= threshold"))]))
